@@ -2,7 +2,8 @@
     The same function is extracted to OCaml (ocaml/modelrun) and can be evaluated inside Coq. *)
 From Coq Require Import Strings.String Strings.Byte.
 From Coq Require Import List Arith NArith ZArith Bool.
-From PV Require Import Base.Bytes Base.Outcome Base.KV Compkey.Model Aol.Model Aol.Query Bank.Model Did.Model Chain.Model Driver.Tok.
+From PV Require Import Base.Bytes Base.Outcome Base.KV Compkey.Model Aol.Model Aol.Query Bank.Model Did.Model Pnft.Model Chain.Model Driver.Tok.
+From PV Require Generated.GenNft.
 From PV Require Pagination.Model.
 Import ListNotations.
 
@@ -318,6 +319,52 @@ Definition did_msg_of_toks (st : dstate) (ts : list tok) : option base_msg :=
   | _ => None
   end.
 
+Definition print_z_early (z : Z) : bytes :=
+  match z with Zneg p => b "-" ++ print_dec (Npos p) | _ => print_dec (Z.to_N z) end.
+
+(** ** PNFT messages, renderings, queries *)
+Definition pnft_msg_of_toks (ts : list tok) : option base_msg :=
+  match ts with
+  | kind :: args =>
+      match map_opt bytes_of_tok args with
+      | None => None
+      | Some a =>
+          if tok_is kind "pnft.CreateDenom" then
+            match a with [i; n; sy; d; u; uh; c; dt] => Some (BPnft (PCreateDenom i n sy d u uh c dt)) | _ => None end
+          else if tok_is kind "pnft.UpdateDenom" then
+            match a with [i; n; sy; d; u; uh; c; dt] => Some (BPnft (PUpdateDenom i n sy d u uh c dt)) | _ => None end
+          else if tok_is kind "pnft.DeleteDenom" then
+            match a with [i; r] => Some (BPnft (PDeleteDenom i r)) | _ => None end
+          else if tok_is kind "pnft.TransferDenom" then
+            match a with [i; sn; r] => Some (BPnft (PTransferDenom i sn r)) | _ => None end
+          else if tok_is kind "pnft.Mint" then
+            match a with [dn; i; n; d; u; uh; dt; c] => Some (BPnft (PMint dn i n d u uh dt c)) | _ => None end
+          else if tok_is kind "pnft.Transfer" then
+            match a with [dn; i; sn; r] => Some (BPnft (PTransfer dn i sn r)) | _ => None end
+          else if tok_is kind "pnft.Burn" then
+            match a with [dn; i; bu] => Some (BPnft (PBurn dn i bu)) | _ => None end
+          else None
+      end
+  | [] => None
+  end.
+
+Definition denom_str (d : denom) : bytes :=
+  join_with "/"%byte (map tok_of_bytes [dn_id d; dn_name d; dn_symbol d; dn_description d; dn_uri d; dn_uri_hash d; dn_owner d; dn_data d]).
+Definition token_str (t : token) : bytes :=
+  join_with "/"%byte (map tok_of_bytes [tk_class t; tk_id t; tk_name t; tk_description t; tk_uri t; tk_uri_hash t; tk_data t; tk_creator t]
+                      ++ [print_z_early (tk_created_at t)]).
+Definition pnft_str (p : pnft) : bytes := token_str (p_token p) ++ b "/" ++ tok_of_bytes (p_owner p).
+
+Definition nft_val_str (v : nft_val) : bytes :=
+  match v with
+  | VClass d => b "C:" ++ denom_str d
+  | VToken t => b "T:" ++ token_str t
+  | VOwnerOf o => b "O:" ++ tok_of_bytes o
+  | VByOwner => b "P"
+  | VSupply n => b "S:" ++ print_dec n
+  end.
+Definition pnft_entry_str (e : bytes * nft_val) : bytes := to_hex (fst e) ++ b "=" ++ nft_val_str (snd e).
+
 (** ** chain commands *)
 (** the ideal signature scheme of the correspondence: a signature verifies exactly when the harness
     produced it with that key over those bytes (table SIGT, filled by the real secp256k1 code) *)
@@ -325,7 +372,7 @@ Definition verify_of (st : dstate) (pk msg sg : bytes) : bool :=
   existsb (fun e => bytes_eqb (fst e) pk && bytes_eqb (fst (snd e)) msg && bytes_eqb (snd (snd e)) sg) (d_sigs st).
 
 Definition env_of (st : dstate) : env :=
-  {| e_unbech := unbech_of st; e_now := d_now st; e_fee_collector := d_fee_collector st; e_blocked := d_blocked st;
+  {| e_unbech := unbech_of st; e_now := d_now st; e_fee_collector := d_fee_collector st; e_blocked := d_blocked st; e_bech := bech_of st;
      e_b58key := fun s => lookup s (d_keys58 st); e_verify := verify_of st |}.
 
 Definition coin_of_tok (t : tok) : option coin :=
@@ -442,7 +489,60 @@ Definition page_line (r : outcome (list bytes * Pagination.Model.page_res)) : by
   | Panic => b "Q panic"
   end.
 
-Definition q_cmd (st : dstate) (ts : list tok) : list bytes :=
+Definition pnft_q (st : dstate) (ts : list tok) : option (list bytes) :=
+  let e := env_of st in
+  let ps := c_pnft (d_chain st) in
+  let lst (l : list bytes) := [join_toks [b "Q"; b "ok"; b "L" ++ cat "," l]] in
+  match ts with
+  | kind :: args =>
+      if tok_is kind "pnft.Denoms" then
+        match page_req_of_toks args with
+        | Some req =>
+            let items := Aol.Query.sub_store GenNft.nft_class_key ps in
+            let on (_ : bytes) (v : nft_val) : outcome bytes :=
+              match v with VClass d => Ok (denom_str d) | _ => Err (b "x") 1 end in
+            match Pagination.Model.paginate_with on items req with
+            | Ok (l, pr) => Some [join_toks [b "Q"; b "ok"; b "L" ++ cat "," l;
+                                             match Pagination.Model.pg_next_key pr with Some (c :: k) => to_hex (c :: k) | _ => b "nil" end;
+                                             print_dec (Pagination.Model.pg_total pr)]]
+            | Err _ _ => Some [b "Q err 2"]
+            | Panic => Some [b "Q panic"]
+            end
+        | None => Some bad
+        end
+      else
+      match map_opt bytes_of_tok args with
+      | None => None
+      | Some a =>
+          if tok_is kind "pnft.Denom" then
+            match a with
+            | [i] => match get_class ps i with Some d => Some [join_toks [b "Q"; b "ok"; denom_str d]] | None => Some [b "Q err 2"] end
+            | _ => Some bad end
+          else if tok_is kind "pnft.PNFT" then
+            match a with
+            | [dn; i] => match get_pnft (e_bech e) ps dn i with
+                         | Some p => Some [join_toks [b "Q"; b "ok"; pnft_str p]] | None => Some [b "Q err 2"] end
+            | _ => Some bad end
+          else if tok_is kind "pnft.PNFTs" then
+            match a with
+            | [dn] => Some (lst (map pnft_str (pnfts_of_class (e_bech e) ps dn)))
+            | _ => Some bad end
+          else if tok_is kind "pnft.ByOwner" then
+            match a with
+            | [dn; o] => match e_unbech e o with
+                         | Some oa => Some (lst (map pnft_str (pnfts_of_class_by_owner (e_bech e) ps dn oa)))
+                         | None => Some [b "Q err 2"] end
+            | _ => Some bad end
+          else if tok_is kind "pnft.DenomsByOwner" then
+            match a with
+            | [o] => Some (lst (map denom_str (denoms_by_owner true ps o)))
+            | _ => Some bad end
+          else None
+      end
+  | [] => None
+  end.
+
+Definition q_cmd0 (st : dstate) (ts : list tok) : list bytes :=
   let e := env_of st in
   match ts with
   | [kind; did] =>
@@ -496,6 +596,9 @@ Definition q_cmd (st : dstate) (ts : list tok) : list bytes :=
   | _ => bad
   end.
 
+Definition q_cmd (st : dstate) (ts : list tok) : list bytes :=
+  match pnft_q st ts with Some r => r | None => q_cmd0 st ts end.
+
 Definition chain_cmd (st : dstate) (cmd : tok) (args : list tok) : option (dstate * list bytes) :=
   if tok_is cmd "ENV" then
     match args with
@@ -536,7 +639,10 @@ Definition chain_cmd (st : dstate) (cmd : tok) (args : list tok) : option (dstat
     | _ => Some (st, bad)
     end
   else if tok_is cmd "M" then
-    match d_tx st, (match did_msg_of_toks st args with Some m => Some m | None => base_msg_of_toks2 args end) with
+    match d_tx st, (match did_msg_of_toks st args with
+                   | Some m => Some m
+                   | None => match pnft_msg_of_toks args with Some m => Some m | None => base_msg_of_toks2 args end
+                   end) with
     | Some p, Some m =>
         match p_exec p with
         | Some (g, inner) =>
@@ -623,6 +729,8 @@ Definition chain_cmd (st : dstate) (cmd : tok) (args : list tok) : option (dstat
     | [which] =>
         if tok_is which "aol" then
           Some (st, [join_toks [b "D"; b "aol"; join_with ";"%byte (map dump_entry (c_aol (d_chain st)))]])
+        else if tok_is which "pnft" then
+          Some (st, [join_toks [b "D"; b "pnft"; join_with ";"%byte (map pnft_entry_str (c_pnft (d_chain st)))]])
         else if tok_is which "did" then
           Some (st, [join_toks [b "D"; b "did"; join_with ";"%byte (map did_entry_str (c_did (d_chain st)))]])
         else Some (st, bad)
